@@ -461,7 +461,7 @@ def execute_shipped(desc, ctx):
 # ------------------------------------------------------------------------------------------------
 # (b) generated FGDs: strategies produce descriptors only
 
-TAG_POOL = ['A', 'B', 'HL2', 'P2', 'EP1', 'TF2', 'MBASE']
+TAG_POOL = ['A', 'B', 'HL2', 'P2', 'EP1', 'TF2', 'MBASE', '\xc9P', 'T\u4e2d', '\U0001f600']
 
 
 def tags_strategy():
@@ -523,8 +523,24 @@ NUMBERLIKE = ['+5', '-5', '--5', '5-', '-', '+', ' 7', '12 ', ' 3 ', '\t4', '1e3
               '-0', '+0', '1.5', '.5', '5.', '+.5', 'inf', '-inf', 'nan', '+90', '5 5', '1,5', '']
 
 
+# Identifier characters of 2-, 3- and 4-byte UTF-8 width whose upper()/casefold() round trips are trivial.
+NON_ASCII_ID = ['\xe9', '\xc9', '\xfc', '\u03a9', '\u4e2d', '\u30c6', '\U0001f600', '\U00010348']
+
+
+def uident(min_size: int = 1, max_size: int = 6):
+    """Identifiers; about a quarter contain non-ASCII letters (bare tokens may hold any non-syntax character)."""
+    plain = gens.ident(min_size, max_size)
+    mixed = st.tuples(gens.ident(1, 3), st.lists(st.sampled_from(NON_ASCII_ID), min_size=1, max_size=2),
+                      st.sampled_from(['', '_x', '1'])).map(lambda t: t[0] + ''.join(t[1]) + t[2])
+    return st.one_of(plain, plain, plain, mixed)
+
+
+def _non_ascii(s) -> bool:
+    return isinstance(s, str) and not s.isascii()
+
+
 def kv_name():
-    return st.one_of(st.sampled_from(['k0', 'k1', 'K2', 'spawnflags', 'model']), gens.ident(1, 6))
+    return st.one_of(st.sampled_from(['k0', 'k1', 'K2', 'spawnflags', 'model', 'k\xe9', 'K\u4e2d\U0001f600']), uident(1, 6))
 
 
 def value_item():
@@ -564,7 +580,7 @@ def kv_strategy(engine: bool):
 
 def io_strategy(engine: bool):
     return st.fixed_dictionaries({
-        'name': st.one_of(st.sampled_from(['Enable', 'OnUser1', 'setvalue']), gens.ident(1, 6)),
+        'name': st.one_of(st.sampled_from(['Enable', 'OnUser1', 'setvalue', 'On\xc9v\U0001f600']), uident(1, 6)),
         'tags': st.just([]) if engine else tags_strategy(),
         'type': st.one_of(st.sampled_from([0, 0, 3, 4, 5]), st.integers(0, len(VT) - 1)),
         'desc': st.one_of(st.just(''), short_text(), long_text() if not engine else short_text()),
@@ -572,7 +588,8 @@ def io_strategy(engine: bool):
 
 
 def path_text():
-    return st.text(st.sampled_from('abcmodels/_.019-'), min_size=1, max_size=12)
+    return st.text(st.one_of(st.sampled_from('abcmodels/_.019-'), st.sampled_from('abcmodels/_.019-'),
+                             st.sampled_from('abcmodels/_.019-'), st.sampled_from(NON_ASCII_ID)), min_size=1, max_size=12)
 
 
 def num_q():
@@ -589,7 +606,7 @@ def col_q():
 
 
 def helper_strategy():
-    idn = gens.ident(1, 6)
+    idn = uident(1, 6)
     return st.one_of(
         st.sampled_from(NOARG_HELPERS).map(lambda n: [n]),
         st.tuples(st.sampled_from(['size', 'bbox']), vec_q(), vec_q()).map(list),
@@ -625,7 +642,7 @@ def res_strategy(engine: bool):
 def ent_strategy(engine: bool):
     return st.fixed_dictionaries({
         'kind': st.integers(0, len(ENT_TYPES) - 1),
-        'name': gens.ident(1, 8),
+        'name': uident(1, 8),
         'bases': st.lists(st.integers(0, 30), max_size=0 if engine else 3),
         'alias': st.booleans() if not engine else st.sampled_from([False, False, False, True]),
         'nobase': st.booleans(),          # engine format only: leave .bases empty instead of [_CBaseEntity_]
@@ -824,6 +841,21 @@ def build_resources(rd, names, engine: bool):
     ]
 
 
+def _name_labels(ed, classname: str, stats: Stats) -> None:
+    if _non_ascii(classname):
+        stats.labels.add('name:non_ascii_class')
+    if any(_non_ascii(k['name']) for k in ed['kvs']):
+        stats.labels.add('name:non_ascii_kv')
+    if any(_non_ascii(d['name']) for d in ed['ins'] + ed['outs']):
+        stats.labels.add('name:non_ascii_io')
+    if any(_non_ascii(a) for h in ed['helpers'] for a in h[1:] if isinstance(a, str)):
+        stats.labels.add('name:non_ascii_helper_arg')
+    if ed['res'] and any(_non_ascii(expand(r['file'])) for r in ed['res']):
+        stats.labels.add('name:non_ascii_res_path')
+    if ed['res'] and any(_non_ascii(t) for r in ed['res'] for t in r['tags']):
+        stats.labels.add('name:non_ascii_res_tag')
+
+
 def build_text_fgd(desc, stats: Stats):
     """A general FGD through the object API (FGD(), EntityDef(), ent.kv[name, tags] = KVDef(...), ...)."""
     from srctools.fgd import FGD, EntityDef, EntityTypes
@@ -833,6 +865,7 @@ def build_text_fgd(desc, stats: Stats):
     for i, ed in enumerate(desc['ents']):
         ent = EntityDef(EntityTypes(ENT_TYPES[ed['kind'] % len(ENT_TYPES)]), f"{ed['name']}_{i}")
         stats.labels.add('type:' + ent.type.name)
+        _name_labels(ed, ent.classname, stats)
         if i:
             seen = []
             for b in ed['bases']:
@@ -980,6 +1013,8 @@ def build_engine_fgd(desc, stats: Stats):
             else:
                 ent.bases = [ents[0]]
         stats.labels.add('type:' + ent.type.name)
+        if i:
+            _name_labels(ed, ent.classname, stats)
         ent.desc = expand(ed['desc'])
         ent.helpers = [build_helper(h) for h in ed['helpers']]
         for kd in ed['kvs']:
@@ -1222,12 +1257,14 @@ SUBCHECKS = [
                   'long_with_space', 'long_with_newline', 'split', 'tagged_dup', 'flag_tags', 'choice_tags', 'alias',
                   'io_decays', 'io_valid', 'resources', 'res_tags', 'empty_tag_map', 'helper:unknown', 'helper:size', 'helper:frustum',
                   'empty_choice_name', 'default_needs_escape', 'default:numberlike',
-                  'default:numberlike_not_bare_safe', 'choice:numberlike')
+                  'default:numberlike_not_bare_safe', 'choice:numberlike', 'name:non_ascii_class', 'name:non_ascii_kv',
+                  'name:non_ascii_io', 'name:non_ascii_helper_arg', 'name:non_ascii_res_path', 'name:non_ascii_res_tag')
         + tuple('type:' + n for n in ('BASE', 'POINT', 'BRUSH', 'ROPES', 'TRACK', 'FILTER', 'NPC', 'EXTEND'))),
     Sub('binary', execute_binary, strategy=gen_bin_strategy, enumerate=binary_enumerate, quick=200, thorough=4000,
         quick_shards=8, floor=50, enum_counts_distinct=True,
         must_hit=('shipped_slice', 'generated', 'alias', 'nobase', 'kv_default', 'kv_readonly', 'flags', 'res_tags',
-                  'empty_tag_map')),
+                  'empty_tag_map', 'name:non_ascii_class', 'name:non_ascii_kv', 'name:non_ascii_io',
+                  'name:non_ascii_res_path', 'name:non_ascii_res_tag')),
     Sub('lazy', execute_lazy, strategy=lazy_strategy, quick=120, thorough=3000, quick_shards=8, floor=20,
         must_hit=('alias_before_base', 'then_full', 'repeat_query', 'via_api')),
 ]
@@ -1246,7 +1283,8 @@ RULE = (
     'before its base; distinct = sha1 of the descriptor JSON'
 )
 ASSUMPTIONS = [
-    'class, keyvalue and I/O names are identifiers; value types are ValueTypes members (custom string types need '
+    'class, keyvalue and I/O names are identifiers (ASCII, or with letters of 2-4 byte UTF-8 width that upper()/casefold() '
+    'map trivially); value types are ValueTypes members (custom string types need '
     'ignore_unknown_valuetype and are outside the statement); classnames are unique ignoring case',
     'bases are EntityDef objects that are members of the same FGD, listed once, and only earlier entities (no loops)',
     'is_alias is not in the statement\'s list of text fields: export() writes aliasof() classes as base(); it is compared in the '
